@@ -33,6 +33,10 @@ func c16Controller(args []string) {
 		// a traced program with signal-ignoring descendants
 		runPtraceProbe(RunSpec{Script: "ignore 15;ignore 1;fork;ignore 15;fork;sleep 30000;endfork;sleep 30000;endfork;sleep 30000;exit 0", Filter: tracingFilter(), Timeout: 40 * time.Second,
 			SyncFunc: func(pid int) error { fmt.Printf("PROG %d\n", pid); os.Stdout.Sync(); return nil }})
+	case "ptrace-untraced-clone":
+		// the program creates a child with clone(CLONE_UNTRACED|SIGCHLD): the kernel does not attach it to the tracer
+		runPtraceProbe(RunSpec{Script: "ignore 15;ignore 1;sys 56 0x800011 0 0 0 0;sleep 30000;exit 0", Filter: tracingFilter(), Timeout: 40 * time.Second,
+			SyncFunc: func(pid int) error { fmt.Printf("PROG %d\n", pid); os.Stdout.Sync(); return nil }})
 	case "ptrace-insync", "unshare-insync":
 		// the controller is killed DURING the synchronisation: the launched child waits for the answer of the callback.
 		// The program's descriptors are the controller's own 0,1,2, so that the descriptor shuffle needs no scratch numbers
@@ -168,7 +172,7 @@ func procsInGroup(pgid int) []int {
 }
 
 func runC16(res *Result, d *Driver, tier string, seed uint64) {
-	res.Rule = "a helper controller process (this binary) builds a container / starts a traced program whose descendants ignore signals, reports the init pid, its pid namespace and the program pid; the harness SIGKILLs the controller when it announces a protocol point (verif delay-point announcements on its stderr: host.execve.sent, host.waitForDone, container.started via the init's stderr) and at random instants, for idle / Execve (sync before and after exec) / file operations / ptrace; during the synchronisation callback of a ptrace and of a namespace launch; and for the tracer used directly on a launcher with and without a seccomp filter; " +
+	res.Rule = "a helper controller process (this binary) builds a container / starts a traced program whose descendants ignore signals, reports the init pid, its pid namespace and the program pid; the harness SIGKILLs the controller when it announces a protocol point (verif delay-point announcements on its stderr: host.execve.sent, host.waitForDone, container.started via the init's stderr) and at random instants, for idle / Execve (sync before and after exec) / file operations / ptrace; during the synchronisation callback of a ptrace and of a namespace launch; for the tracer used directly on a launcher with and without a seccomp filter; and for a program that creates a child with clone(CLONE_UNTRACED) (open known finding); " +
 		"afterwards no process of the container's pid namespace, resp. of the traced program's process group, may be alive within the bound. non-trivial = every case; distinct = (mode, kill point)."
 	rng := NewRng(seed, "C16", 1)
 	self, _ := os.Executable()
@@ -186,6 +190,7 @@ func runC16(res *Result, d *Driver, tier string, seed uint64) {
 	for k := 0; k < 2; k++ {
 		cases = append(cases, kc{"ptrace-insync", "in-sync"}, kc{"unshare-insync", "in-sync"}, kc{"tracer-noseccomp", "after-start"}, kc{"tracer-seccomp", "after-start"})
 	}
+	cases = append(cases, kc{"ptrace-untraced-clone", "after-start"})
 	for _, p := range []string{"host.execve.sent", "host.waitForDone"} {
 		cases = append(cases, kc{"execve", p}, kc{"execve-syncafter", p})
 	}
@@ -196,7 +201,7 @@ func runC16(res *Result, d *Driver, tier string, seed uint64) {
 	const bound = 10 * time.Second
 	for rep := 0; rep < reps; rep++ {
 		for _, c := range cases {
-			isPt := c.mode == "ptrace" || strings.HasSuffix(c.mode, "-insync") || strings.HasPrefix(c.mode, "tracer-")
+			isPt := strings.HasPrefix(c.mode, "ptrace") || strings.HasSuffix(c.mode, "-insync") || strings.HasPrefix(c.mode, "tracer-")
 			cmd := exec.Command(self, "c16-controller", c.mode)
 			cmd.Env = append(os.Environ(), "VERIF_ANNOUNCE=1")
 			so, _ := cmd.StdoutPipe()
@@ -282,7 +287,11 @@ func runC16(res *Result, d *Driver, tier string, seed uint64) {
 			// drain a few more lines (the program pid may have been reported just before the kill)
 			t0 := time.Now()
 			var left []int
-			for time.Since(t0) < bound {
+			caseBound := bound
+			if c.mode == "ptrace-untraced-clone" {
+				caseBound = 3 * time.Second // the recorded finding: nothing will kill that child, no need to wait long
+			}
+			for time.Since(t0) < caseBound {
 				left = nil
 				if ns != "" {
 					left = append(left, procsInPidNs(ns)...)
@@ -324,6 +333,10 @@ func runC16(res *Result, d *Driver, tier string, seed uint64) {
 				mkey := ""
 				if allLauncher {
 					mkey = "tracer-killed-before-first-stop"
+				}
+				if c.mode == "ptrace-untraced-clone" && !containsInt(left, progPid) {
+					// the traced main process died with the tracer; what is left is the child it created outside the tracer's reach
+					mkey = "clone-untraced-child"
 				}
 				res.Mismatch(Mismatch{Kind: "oracle", What: "controller killed: sandboxed processes still alive after the bound (C16)", Input: key, Impl: fmt.Sprintf("alive %v (init %d ns %s prog %d)", desc, initPid, ns, progPid), Oracle: "violates", Key: mkey})
 				for _, p := range left {
